@@ -168,6 +168,26 @@ func runC19(c *Ctx) {
 			case 2: // both ends at the same point
 				b = a
 				c.Note("rcone.same_centre")
+			case 3: // constant thickness: sign(r1-r2) = 0 branch
+				r2 = r1
+				c.Note("rcone.equal_radii")
+			case 4: // a zero radius at one end or both
+				switch c.Rng.Intn(3) {
+				case 0:
+					r1 = 0
+				case 1:
+					r2 = 0
+				default:
+					r1, r2 = 0, 0
+				}
+				c.Note("rcone.zero_radius")
+			case 5: // a negative radius (the all-parameter theorems put no sign condition on the radii)
+				if c.Rng.Intn(2) == 0 {
+					r1 = -r1
+				} else {
+					r2 = -r2
+				}
+				c.Note("rcone.negative_radius")
 			}
 			L := a.Distance(b)
 			switch {
@@ -215,8 +235,15 @@ func runC19(c *Ctx) {
 					cur = cur.Add(c.pt(2))
 				}
 				r := c.pos() * 0.5
-				if c.Rng.Intn(8) == 0 {
+				switch c.Rng.Intn(10) {
+				case 0:
 					r = c.pos() * 3 // swallows its neighbours
+				case 1:
+					r = 0
+				case 2, 3:
+					if i > 0 {
+						r = pts[i-1].Radius // constant thickness
+					}
 				}
 				pts[i] = sdf.LinePoint{Point: cur, Radius: r}
 				args += " " + vF(cur) + " " + F(r)
